@@ -17,7 +17,9 @@ from .interp_base import *  # noqa: F401,F403
 from .interp_base import Limit, Raised, Run, _ids
 from .interp_core import NONETYPE, is_concrete
 
-NATIVE_TYPES = (_dt.datetime, _dt.timedelta, _dt.tzinfo, _uuid.UUID)
+import re as _re
+
+NATIVE_TYPES = (_dt.datetime, _dt.timedelta, _dt.tzinfo, _uuid.UUID, _re.Pattern, _re.Match)
 NATIVE_CLASS = {"datetime.datetime": _dt.datetime, "datetime.timedelta": _dt.timedelta, "datetime.timezone": _dt.timezone,
                 "datetime.tzinfo": _dt.tzinfo, "uuid.UUID": _uuid.UUID, "int": int, "str": str, "bytes": bytes,
                 "float": float, "bool": bool, "tuple": tuple, "NoneType": type(None), "EllipsisType": type(Ellipsis),
@@ -198,6 +200,12 @@ class LibMixin:
         # analyses depend on ends in an analysis limit there, never in a silent verdict.
         if n == "textwrap" and attr in ("dedent", "indent"):
             return F(f"textwrap.{attr}")
+        if n == "re" and attr in ("compile", "sub", "match", "fullmatch", "search", "escape", "split", "findall"):
+            return F(f"re.{attr}")
+        if n == "re" and attr in ("IGNORECASE", "I", "MULTILINE", "M", "DOTALL", "S", "ASCII", "A", "VERBOSE", "X"):
+            return int(getattr(_re, attr))
+        if n == "calendar" and attr == "timegm":
+            return F("calendar.timegm")
         if n == "keyword" and attr in ("kwlist", "softkwlist"):
             import keyword as _kw
             return ListV(list(getattr(_kw, attr)))
@@ -565,6 +573,9 @@ class LibMixin:
                   "datetime.datetime.fromtimestamp": _dt.datetime.fromtimestamp,
                   "datetime.datetime.fromisoformat": _dt.datetime.fromisoformat,
                   "json.dumps": __import__("json").dumps, "json.loads": __import__("json").loads,
+                  "calendar.timegm": __import__("calendar").timegm,
+                  "re.compile": _re.compile, "re.sub": _re.sub, "re.match": _re.match, "re.fullmatch": _re.fullmatch, "re.search": _re.search,
+                  "re.escape": _re.escape, "re.split": _re.split, "re.findall": _re.findall,
                   "int.from_bytes": int.from_bytes, "str.isidentifier": str.isidentifier, "bytes.fromhex": bytes.fromhex}
         if name == "struct.Struct" and len(args) == 1 and isinstance(args[0], str):
             try:
